@@ -2868,6 +2868,119 @@ func runC17(c *Ctx) {
 		}
 	}
 
+	// R17.6 the two sides of a range are kept apart: what is stored into a Target* field of a MatchRange is computed from
+	// Target* fields of ranges (never from Src* fields) and the other way round. (A target bound taken from a source bound
+	// lies outside the target whenever the match sits further into the known text than into the unknown one.)
+	{
+		side := func(name string) string {
+			switch {
+			case strings.HasPrefix(name, "Target"):
+				return "Target"
+			case strings.HasPrefix(name, "Src"):
+				return "Src"
+			}
+			return ""
+		}
+		isMR := func(t types.Type) bool { return strings.HasSuffix(core.TypeName(t), "searchset.MatchRange") }
+		var deps func(v ssa.Value, seen map[ssa.Value]bool, depth int, out map[string]bool)
+		deps = func(v ssa.Value, seen map[ssa.Value]bool, depth int, out map[string]bool) {
+			if seen[v] || depth > 12 {
+				return
+			}
+			seen[v] = true
+			switch x := v.(type) {
+			case *ssa.UnOp:
+				if fa, ok := x.X.(*ssa.FieldAddr); ok && x.Op == token.MUL && isMR(fa.X.Type()) {
+					if sd := side(core.FieldName(fa)); sd != "" {
+						out[sd] = true
+					}
+					return
+				}
+				deps(x.X, seen, depth+1, out)
+			case *ssa.Field:
+				if isMR(x.X.Type()) {
+					if sd := side(core.StructOf(x.X.Type()).Field(x.Field).Name()); sd != "" {
+						out[sd] = true
+					}
+				}
+			case *ssa.BinOp:
+				deps(x.X, seen, depth+1, out)
+				deps(x.Y, seen, depth+1, out)
+			case *ssa.Phi:
+				for _, e := range x.Edges {
+					deps(e, seen, depth+1, out)
+				}
+			case *ssa.Convert:
+				deps(x.X, seen, depth+1, out)
+			case *ssa.Call:
+				// an integer helper of the package (min / max): the result depends on its arguments
+				if g := x.Call.StaticCallee(); g != nil && core.FuncPkgPath(g) == ssPkg {
+					for _, a := range x.Call.Args {
+						if bt, ok := a.Type().Underlying().(*types.Basic); ok && bt.Info()&types.IsInteger != 0 {
+							deps(a, seen, depth+1, out)
+						}
+					}
+				}
+			}
+		}
+		nSt, bad := 0, ""
+		for _, fn := range pkgFuncs(p, ssPkg) {
+			for _, b := range fn.Blocks {
+				for _, in := range b.Instrs {
+					st, ok := in.(*ssa.Store)
+					if !ok {
+						continue
+					}
+					fa, ok := st.Addr.(*ssa.FieldAddr)
+					if !ok || !isMR(fa.X.Type()) {
+						continue
+					}
+					sd := side(core.FieldName(fa))
+					if sd == "" {
+						continue
+					}
+					nSt++
+					other := "Src"
+					if sd == "Src" {
+						other = "Target"
+					}
+					// a difference of two bounds of the other side is a length, which may be added to either side: expand the
+					// sums and differences and count the other side's bounds with their signs
+					net := int64(0)
+					out := map[string]bool{}
+					var expand func(v ssa.Value, sign int64, depth int)
+					expand = func(v ssa.Value, sign int64, depth int) {
+						if bo, ok := v.(*ssa.BinOp); ok && depth < 8 && (bo.Op == token.ADD || bo.Op == token.SUB) {
+							expand(bo.X, sign, depth+1)
+							if bo.Op == token.ADD {
+								expand(bo.Y, sign, depth+1)
+							} else {
+								expand(bo.Y, -sign, depth+1)
+							}
+							return
+						}
+						if ld, ok := v.(*ssa.UnOp); ok && ld.Op == token.MUL {
+							if fa2, ok := ld.X.(*ssa.FieldAddr); ok && isMR(fa2.X.Type()) {
+								if side(core.FieldName(fa2)) == other {
+									net += sign
+								}
+								return
+							}
+						}
+						deps(v, map[ssa.Value]bool{}, 0, out)
+					}
+					expand(st.Val, 1, 0)
+					if out[other] || net != 0 {
+						bad = fmt.Sprintf("%s: %s is computed from a %s* field of a range (%s)", core.ShortFn(fn), core.FieldName(fa), other, p.Pos(st.Pos()))
+					}
+				}
+			}
+		}
+		c.R.Check(bad == "", "R17.6", "searchset: the target side of a range is computed from target bounds only, the source side from source bounds only", ssPkg,
+			fmt.Sprintf("%d stores into Src*/Target* fields of MatchRange, none mixes the sides", nSt), bad+": the bound lies outside the text it is applied to, and TargetRange indexes past the target's tokens")
+		c.R.RequireMin("R17.6", "stores into the bounds of a MatchRange", nSt, 8)
+	}
+
 	// R17.2 candidates sorted by target position
 	gm := p.Func(ssPkg, "getMatchedRanges")
 	if c.R.Anchor(gm != nil, "searchset.getMatchedRanges") {
